@@ -104,7 +104,7 @@ MATCH_RULE = ("(pattern, message, bindings) triples built from a planted witness
 PROPS = {
     "C01": {
         "modules": ["Sheens.Props.C01"],
-        "theorems": [],
+        "theorems": ["Sheens.C01.match_sound", "Sheens.C01.Witness.sat"],
         "facts": [],
         "runs": {
             "quick": [("match", ["-profile", "c01", "-n", "6000", "-reps", "3"])],
